@@ -2,23 +2,28 @@
    of the pipeline drivers (explode, encode, plink.convert): one task is submitted per
    partition inside the manager; __exit__ waits on ALL submitted futures in completion order;
    the first one that did not finish normally makes the wait cancel the rest and raise
-   (RuntimeError for a broken pool, the task's own exception otherwise); the statements after
+   (RuntimeError for a broken pool or a task that raised SystemExit / KeyboardInterrupt, the task's own
+   exception otherwise); the statements after
    the with-block (finalise / consolidate) run only if the block returned normally. *)
 From Coq Require Import List Bool.
 Import ListNotations.
 
-Inductive outcome := Done | Raised (e : nat) | Broken.
+(* Raised e: the task raised an Exception (id e); Exited: it raised SystemExit / KeyboardInterrupt
+   (a BaseException that is not an Exception); Broken: its process died (BrokenProcessPool) *)
+Inductive outcome := Done | Raised (e : nat) | Broken | Exited.
 Inductive result := Ok | ErrReraise (e : nat) | ErrRuntime.
 
 (* for future in cf.as_completed(futures): exception = future.exception();
    if exception is not None: cancel_futures(futures); if isinstance(.., BrokenProcessPool): raise
-   RuntimeError(...) from exception else: raise exception *)
+   RuntimeError(...) from exception elif not isinstance(exception, Exception): raise RuntimeError(...)
+   from exception else: raise exception *)
 Fixpoint wait_on_futures (completed : list outcome) : result :=
   match completed with
   | [] => Ok
   | Done :: tl => wait_on_futures tl
   | Raised e :: _ => ErrReraise e
   | Broken :: _ => ErrRuntime
+  | Exited :: _ => ErrRuntime
   end.
 
 (* __exit__: if exc_type is None: wait_on_futures(self.futures) else: cancel_futures(self.futures) *)
